@@ -83,6 +83,13 @@ var fReuseB = bigslice.Func(func(prev bigslice.Slice) bigslice.Slice {
 	return bigslice.Reduce(s, func(a, b int) int { return a + b })
 })
 
+// fReuseA1: the one-shard variant of fReuseA (spaced-losses history only).
+// Registered after all other Funcs so that their indices do not change.
+var fReuseA1 = bigslice.Func(func() bigslice.Slice {
+	s := bigslice.Const(1, seq(16), seq(16))
+	return bigslice.Map(s, func(k, v int) (int, int) { return k, v + 100 })
+})
+
 type program struct {
 	name string
 	// run evaluates the program on sess and returns the result to be scanned.
